@@ -316,6 +316,8 @@ def run_obligation(res, spec, findings, must_raise=False, check_c04_only=False):
         cdoc = doc.model_str(m)
         with shims.real_code():
             ctag, cval = run_with_alarm(lambda: read_ttl(cdoc), 1.0)
+            if ctag == "HANG" and tag != "HANG":      # symbolic run terminated: second, generous attempt before reporting a disagreement (loaded machine)
+                ctag, cval = run_with_alarm(lambda: read_ttl(cdoc), 30.0)
         sym_obs, con_obs = _observed(tag, val, m), _observed(ctag, cval, None)
         if sym_obs != con_obs:
             raise HarnessError("engine/impl disagreement on %r: symbolic %r vs concrete %r" % (cdoc, sym_obs, con_obs))
@@ -509,6 +511,8 @@ def run_raw(res, name, findings=()):
                                           replay=dict(family="ttl", args=dict(doc=cdoc, expected=[], must_raise=True)), expected="an exception", observed=tag))
         with shims.real_code():
             ctag, cval = run_with_alarm(lambda: read_ttl(cdoc), 1.0)
+            if ctag == "HANG" and tag != "HANG":      # symbolic run terminated: second, generous attempt before reporting a disagreement (loaded machine)
+                ctag, cval = run_with_alarm(lambda: read_ttl(cdoc), 30.0)
         if (ctag == "EXC") != (tag == "EXC"):
             raise HarnessError("engine/impl disagreement on %r: symbolic %s vs concrete %s" % (cdoc, tag, ctag))
         res["witnesses"] += 1
